@@ -109,6 +109,11 @@ def generate(rng, tier):
             if rng.random() < 0.5:
                 op['at_idx'].append(op['at_idx'][0])
             op['at_val'] = rng.choice([2, 1, -1, 3])
+            if m == 'at' and rng.random() < 0.4:
+                # values of `at` from another storage through any handle
+                # (seed a17: the element is then a NON-first operand and the
+                # target may be a plain array)
+                op['at_vals'] = h()
             if m == 'outer' and rng.random() < 0.5:
                 # second operand from a space of another size
                 op['outer_other'] = rng.randint(1, 4)
@@ -619,10 +624,20 @@ class Run(object):
                 r_in[1] = S2.element(np.array(a2, copy=True))
             self.ctx.fired('outer-other-size')
         extra = []
+        extra_m = None
         if m == 'at':
             n0 = len(m_in[0])
             idx = [i % n0 for i in op.get('at_idx', [0, n0 - 1])]
             extra = [idx] if uf.nin == 1 else [idx, op.get('at_val', 2)]
+            if uf.nin == 2 and op.get('at_vals'):
+                vs, vh = op['at_vals']
+                if vs == ins[0][0]:
+                    raise Reject('values of `at` from the target storage')
+                # a rotation of the first axis: values of the full shape fit
+                idx = [(i + idx[0]) % n0 for i in range(n0)]
+                extra_m = [idx, self.stores[vs].model]
+                extra = [idx, self.stores[vs].handle(vh)]
+                self.ctx.fired('at-values-' + vh)
         if m == 'reduceat':
             try:
                 extra = [[0, max(0, m_in[0].shape[kw['axis']] - 1)]]
@@ -636,12 +651,12 @@ class Run(object):
         snap = [np.array(st.model, copy=True) for st in self.stores]
         try:
             with np.errstate(all='ignore'):
-                m_res = getattr(uf, m)(*(m_in + extra), **kw)
+                m_res = getattr(uf, m)(*(m_in + (extra_m or extra)), **kw)
         except Exception:
             for st, sn in zip(self.stores, snap):
                 st.model[...] = sn
             raise Reject('numpy rejects this call')
-        if not any(hasattr(x, 'space') for x in r_in):
+        if not any(hasattr(x, 'space') for x in r_in + extra[1:]):
             getattr(uf, m)(*(r_in + extra), **kw)
             raise Reject('no odl operand')
         site = '{}/{}.{}'.format(self.kind, op['uf'], m)
